@@ -112,6 +112,12 @@ func init() {
 			"exactly one consistent outcome (error result + unchanged data + no event, or no error result + one event + success result iff requested) for the full / delete write. " +
 			"part 'latecb': k in {1,2} callbacks, 1-2 writes become pending (timeout 120-200 ms) and get a drawn prefix of their verdicts, then the application registers one more approval callback, then 1-2 further writes arrive (timeout 1 h, presented to k+1 callbacks); all remaining verdict calls one at a time in a drawn order. " +
 			"The statement does not say whether a callback registered while a write is pending has a say in that write, so for the earlier writes only this is judged: never applied before every callback it WAS presented to has approved, never applied with a denial, exactly one outcome in the end (applied or one error result); the later writes by the long rules with k+1 callbacks. " +
+			"part 'repeat' (c12_hist.go): k in {1,2,3}, a history of 2-4 writes of one bound peer, decided one after the other, each partial (one element) or full (the whole list, no filter) and each either changing one element or carrying EXACTLY the data the function holds when it comes in " +
+			"(set by the application - one step in three is preceded by a SetData - or left there by an earlier approved write of the history); verdicts all-approve | one denial at a drawn position | one callback silent (timeout 30-50 ms, late approval/denial/nothing afterwards). " +
+			"Judged without reading a unique value: presented exactly once to every callback (at quiescence), and results per counter + the whole list compared before / after every verdict call: nothing before any verdict and before the last approval, exactly one error result and unchanged list after a denial / the timeout, list == payload and success result iff requested after the last approval (a full write may instead be refused consistently). " +
+			"part 'local-removal' (c12_hist.go): two local entities with one server feature each (k callbacks), one peer bound to both; 1-3 writes become pending (at least one on the feature of the entity to be removed), each gets 0..k-1 approvals, then the application calls DeviceLocal.RemoveEntity for one of the entities while the peer stays connected; " +
+			"then per write: a denial (exactly one error result when the call has returned), the remaining approvals (feature of the other entity: applied + success result iff requested; feature of the removed entity: exactly one outcome, applied or one error result), or one callback silent (timeout 150-250 ms: exactly one error result, awaited by observing it; " +
+			"if it does not come the stack's own pending table decides between 'lost' and inconclusive). " +
 			"Message counters (parts vectors, interleave, mixed, gate, expiry, blocking, shapes, latecb): in three cases of four the writing peers number their writes from a boundary value - the largest uint64 (then 0, 1, ..: wrap-around), 0, or 1 - on both connections alike (same=true) or with different boundary values. " +
 			"Parts vectors and mixed, one case in four: the case ends with a write WITHOUT msgCounter under a 30-50 ms approval timeout, its callbacks answering at once, after the timeout or never: at most one outcome, no panic, the process survives the timeout (a crash on a timer goroutine is attributed to the case by the parent), the next write is served. " +
 			"Part mixed also draws: class timely (timeout 300-500 ms, no silent callback, all verdict calls made one after the other when 0/30/55/75/90 per cent of the timeout have passed; if the last call has returned before the timeout can have passed since a moment BEFORE the write was handed over, unanimous approval must have been applied), " +
@@ -143,6 +149,8 @@ func init() {
 			{Name: "blocking", Cases: pick(96, 1200), Run: c12Blocking, Quiet: 90 * time.Second},
 			{Name: "shapes", Cases: pick(80, 1000), Run: c12Shapes, Quiet: 90 * time.Second},
 			{Name: "latecb", Cases: pick(48, 600), Run: c12LateCB, Quiet: 90 * time.Second},
+			{Name: "repeat", Cases: pick(64, 800), Run: c12Repeat, Quiet: 90 * time.Second},
+			{Name: "local-removal", Cases: pick(48, 600), Run: c12LocalRemoval, Quiet: 90 * time.Second},
 			{Name: "mixed-race", Race: true, Cases: pick(30, 400), Run: c12Mixed, Quiet: 120 * time.Second},
 			{Name: "gate-race", Race: true, Cases: pick(20, 300), Run: c12Gate, Quiet: 120 * time.Second},
 			{Name: "expiry-race", Race: true, Cases: pick(10, 60), Run: c12Expiry, Quiet: 120 * time.Second},
